@@ -48,6 +48,7 @@ type c17 struct {
 	// naive: the input roots are materialised by NaiveBuildDirectory into
 	// an in-memory directory instead of being loaded lazily.
 	naive       bool
+	nv          *naiveShared
 	allowBroken bool
 	// NFS file handles of stateless leaves seen anywhere.
 	handles map[string]string
@@ -104,6 +105,9 @@ func newC17(r *simrun.Run) *c17 {
 	r.Logf("config: naive=%v handles=%s faultFree=%v brokenAllowed=%v directoryCache=%d maxOps=%d", w.naive, map[bool]string{true: "NFS", false: "FUSE"}[useNFS], w.faultFree, allowBroken, cache, w.maxOps)
 
 	w.g = generateDAG(t, w.cas, allowBroken, r.Logf)
+	if w.naive {
+		w.setupNaiveShared()
+	}
 	na := 1 + t.Choice(2)
 	for i := 0; i < na; i++ {
 		a := &action{w: w, idx: i, name: fmt.Sprintf("action%d", i)}
@@ -433,6 +437,7 @@ func (w *c17) run() {
 func (w *c17) finalChecks() {
 	x := &walker{w: w, name: "ctl"}
 	if w.naive {
+		w.checkCache("at the end")
 		for _, b := range w.g.blobs {
 			if !bytes.Equal(w.cas.blobs[casKey(b.digest)], b.data) {
 				w.violate("C17/cas-input-altered", fmt.Sprintf("blob%d changed in the CAS", b.id))
